@@ -376,6 +376,11 @@ def run(ck):
     radio = Radio(ck)
     agg = Agg(ck)
     n = run_for(ck, radio, agg)
+    # open_tx_pipe() and the listen setter decide from the driver's cached copies of EN_AA / EN_RXADDR / the pipe addresses: the rules above
+    # hold for the radio only while every setter keeps those copies equal to the registers (C03's R03.3 obligations, re-run here)
+    from . import c03
+    from ..tables import contract as _ct
+    c03.run_setters(radio, agg, _ct.SETTERS)
     agg.flush()
     ck.floor("R08.2", "RX-entry scenarios", n[0], 40)
     ck.floor("R08.5", "TX-entry scenarios", n[1], 32)
